@@ -1,1 +1,640 @@
-fn main() {}
+//! In-process drivers of the daemon side (real ShmUpdater / FSM / process_messages, real poller
+//! loop, real ShmWriter/ShmReader/ClockBoundClient) under a virtual clock.
+//!
+//! daemonsim <mode> --seed N --count K --shard i/n --out f [--dump file]
+//! modes: c07 c08 c09 c10 c12 c13 c01
+
+mod rig;
+mod wire;
+mod world;
+
+use std::collections::BTreeMap;
+use std::io::Write;
+
+use clock_bound_d::Message;
+use rig::{generation_of, read_fresh, workdir, Daemon, Raw, Wait};
+use vworld::serde_json::Value;
+use vworld::{arg_str, arg_u64, clock, json, parse_args, Rng};
+use wire::{bits_of_f64, decode_float, float_bits, tracking_of, Report};
+
+pub const NS: i128 = 1_000_000_000;
+pub const T0_REAL_S: i64 = 1_700_000_000;
+
+pub struct Args {
+    pub seed: u64,
+    pub count: u64,
+    pub shard: u64,
+    pub nshards: u64,
+    pub replay_dir: String,
+    pub dump: String,
+    pub map: std::collections::HashMap<String, String>,
+}
+
+fn ts(sec: i64, nsec: i64) -> libc::timespec {
+    libc::timespec { tv_sec: sec, tv_nsec: nsec }
+}
+
+pub fn sync_report(correction_bits: u32, delay_bits: u32, dispersion_bits: u32) -> Report {
+    Report { ref_id: 0, leap: 0, ref_time_ns: T0_REAL_S as i128 * NS, correction_bits, delay_bits, dispersion_bits, interval_bits: bits_of_f64(16.0) }
+}
+
+fn violation(out: &mut Vec<Value>, a: &Args, prop: &str, sig: &str, detail: String, replay: Value) {
+    if out.len() < 20 {
+        let rp = format!("{}/{}-daemonsim-{}-{}-{}.json", a.replay_dir, prop, a.seed, a.shard, out.len());
+        vworld::write_json(&rp, &json!({"property": prop, "engine": "daemonsim", "sig": sig, "detail": detail, "case": replay}));
+        out.push(json!({"sig": sig, "detail": detail, "replay": rp}));
+    }
+}
+
+// ------------------------------------------------------------------------------------------ C07
+
+fn gen_float(rng: &mut Rng, k: u64, signed: bool) -> u32 {
+    // Meaningful range: |value| < 2^30 s, i.e. exponent field <= 31.
+    let exp = (k % 96) as i32 - 64;
+    let coef: i64 = match rng.below(8) {
+        0 => 0,
+        1 => 1,
+        2 => (1 << 24) - 1,
+        3 => 1 << 23,
+        4 => rng.range(1, 1000),
+        _ => rng.range(0, (1 << 24) - 1),
+    };
+    let coef = if signed && rng.chance(1, 2) { -coef } else { coef };
+    float_bits(coef, exp)
+}
+
+fn mode_c07(a: &Args) -> Value {
+    let dir = workdir("c07");
+    let path = dir.join("shm");
+    clock::fixed::set((T0_REAL_S, 0), (5000, 0));
+    let mut d = Daemon::start(&path, 1000, true);
+    let mut rng = Rng::new(a.seed ^ 0xC07 ^ a.shard << 32);
+    let mut dump = std::io::BufWriter::new(std::fs::File::create(&a.dump).expect("--dump"));
+    let mut violations = Vec::new();
+    let mut evaluations = 0u64;
+    let mut kinds: BTreeMap<&'static str, u64> = BTreeMap::new();
+    let batch = 2000u64;
+    let mut k = a.shard;
+    let mut file_checks = 0u64;
+    while k < a.count {
+        let mut sent: Vec<(Report, i64, (i64, i64))> = Vec::new();
+        let base = d.log.lock().unwrap().len();
+        while (sent.len() as u64) < batch && k < a.count {
+            let (o, dl, dp, kind): (u32, u32, u32, &'static str) = match rng.below(10) {
+                0 => (0, 0, 0, "all-zero"),
+                1 => {
+                    // offset alone, value close to a whole number of nanoseconds
+                    let n = rng.range(1, 2_000_000_000) as f64;
+                    let v = n * 1e-9 * if rng.chance(1, 2) { -1.0 } else { 1.0 };
+                    (bits_of_f64(v), 0, 0, "near-integer-ns")
+                }
+                2 => (gen_float(&mut rng, k, true), 0, 0, "offset-only"),
+                3 => (0, gen_float(&mut rng, k, false), 0, "delay-only"),
+                4 => (0, 0, gen_float(&mut rng, k, false), "dispersion-only"),
+                5 => {
+                    // realistic magnitudes: microseconds to milliseconds
+                    let us = |r: &mut Rng| r.range(1, 5_000_000) as f64 * 1e-9;
+                    let s = if rng.chance(1, 2) { -1.0 } else { 1.0 };
+                    (bits_of_f64(s * us(&mut rng)), bits_of_f64(us(&mut rng)), bits_of_f64(us(&mut rng)), "realistic")
+                }
+                _ => (gen_float(&mut rng, k, true), gen_float(&mut rng, k + 31, false), gen_float(&mut rng, k + 57, false), "stratified"),
+            };
+            *kinds.entry(kind).or_insert(0) += 1;
+            let phc: i64 = *rng.pick(&[0i64, 0, 0, 1, 12345, 1 << 40]);
+            let r = sync_report(o, dl, dp);
+            let as_of = (1000 + (k / 1_000_000_000) as i64, (k % 1_000_000_000) as i64);
+            d.send(Message::ClockErrorBoundData((tracking_of(&r), phc, ts(as_of.0, as_of.1))));
+            sent.push((r, phc, as_of));
+            k += a.nshards;
+        }
+        for _ in 0..sent.len() {
+            match d.wait_publication() {
+                Wait::Published => {}
+                Wait::NotPublished => {
+                    violation(&mut violations, a, "C07", "no-publication", "a synchronised report was consumed without a publication".into(), json!({}));
+                    break;
+                }
+                Wait::Inconclusive => {
+                    return json!({"inconclusive": "writer thread did not answer", "evaluations": evaluations, "violations": violations});
+                }
+            }
+        }
+        let log = d.log.lock().unwrap();
+        for (i, (r, phc, as_of)) in sent.iter().enumerate() {
+            let rec = match log.get(base + i) {
+                Some(r) => *r,
+                None => break,
+            };
+            evaluations += 1;
+            if rec.as_of != *as_of || rec.status != 1 {
+                violation(&mut violations, a, "C07", "sync-report-not-recorded", format!("report {:?} (phc {}) was sent with as_of {:?}; published record {:?}", r, phc, as_of, rec), json!({}));
+                continue;
+            }
+            writeln!(dump, "{} {} {} {} {}", r.correction_bits, r.delay_bits, r.dispersion_bits, phc, rec.bound).unwrap();
+        }
+        drop(log);
+        // What the file holds is what the sink was given.
+        if let (Ok(f), Some(last)) = (read_fresh(&path), d.log.lock().unwrap().last().cloned()) {
+            file_checks += 1;
+            if f != last {
+                violation(&mut violations, a, "C07", "file-differs-from-sink", format!("segment file holds {:?}, sink was given {:?}", f, last), json!({}));
+            }
+        }
+    }
+    d.stop();
+    let _ = std::fs::remove_dir_all(&dir);
+    json!({"evaluations": evaluations, "kinds": kinds, "file_checks": file_checks, "violations": violations})
+}
+
+// ------------------------------------------------------------------------------------------ C10
+
+/// Expected class of a report: 1 Synchronized, 2 FreeRunning, 0 Unknown; None = either (sliver).
+fn classify(leap: u16, age_ns: i128, interval_bits: u32) -> (Option<i32>, &'static str) {
+    if age_ns < 0 {
+        return (Some(0), "future");
+    }
+    match leap {
+        0..=2 => {
+            let (c, e2) = decode_float(interval_bits);
+            // 8 * interval seconds, exactly, in nanoseconds * 2^-e2 ... compare age with it.
+            // age > 8*c*2^e2 s  <=>  age_ns > 8*c*2^e2*1e9
+            let stale = if c <= 0 {
+                age_ns > 0
+            } else if e2 >= 0 {
+                age_ns > (8 * c as i128 * NS) << e2
+            } else {
+                (age_ns << (-e2)) > 8 * c as i128 * NS
+            };
+            // floor(8*interval) whole seconds, as a saturating cast of the product does
+            let floor_s: i128 = if c <= 0 {
+                0
+            } else if e2 >= 0 {
+                (8 * c as i128) << e2
+            } else {
+                (8 * c as i128) >> (-e2)
+            };
+            if stale {
+                (Some(2), "stale")
+            } else if age_ns <= floor_s * NS {
+                (Some(1), "fresh")
+            } else {
+                (None, "sliver")
+            }
+        }
+        3 => (Some(2), "unsynchronised"),
+        _ => (Some(0), "bad-leap"),
+    }
+}
+
+fn mode_c10(a: &Args) -> Value {
+    let dir = workdir("c10");
+    let path = dir.join("shm");
+    clock::fixed::set((T0_REAL_S, 0), (5000, 0));
+    let mut d = Daemon::start(&path, 1000, true);
+    let mut violations = Vec::new();
+    let mut evaluations = 0u64;
+    let mut cells: BTreeMap<String, u64> = BTreeMap::new();
+    let mut slivers = 0u64;
+    let intervals: Vec<(f64, &str)> = vec![(0.0, "0"), (0.1, "0.1"), (0.5, "0.5"), (1.0, "1"), (16.0, "16"), (1024.0, "1024"), (-4.0, "-4"), (0.3, "0.3"), (100000.0, "1e5")];
+    let now_ns = T0_REAL_S as i128 * NS;
+    let good = sync_report(float_bits(1 << 10, 0), float_bits(1 << 10, 0), float_bits(1 << 10, 0));
+
+    // Work list: (leap, age, interval bits, fsm state before)
+    let mut work: Vec<(u16, i128, u32, usize, &'static str)> = Vec::new();
+    // (a) every leap status value, fresh and stale, from the Synchronized state.
+    for leap in 0..=65535u32 {
+        work.push((leap as u16, 0, bits_of_f64(16.0), 1, "all-leaps"));
+        if leap < 8 || leap % 257 == 0 || leap > 65530 {
+            work.push((leap as u16, 1000 * NS, bits_of_f64(16.0), 1, "all-leaps-stale"));
+            work.push((leap as u16, -1, bits_of_f64(16.0), 1, "all-leaps-future"));
+        }
+    }
+    // (b) the threshold, for interesting leap values, every interval, every FSM state.
+    for leap in [0u16, 1, 2, 3, 4, 7, 255, 65535] {
+        for (iv, _) in intervals.iter() {
+            let bits = bits_of_f64(*iv);
+            let (c, e2) = decode_float(bits);
+            let thr_floor_ns: i128 = if c <= 0 { 0 } else if e2 >= 0 { ((8 * c as i128) << e2) * NS } else { ((8 * c as i128) >> (-e2)) * NS };
+            let thr_exact_ns_ceil: i128 = if c <= 0 { 0 } else if e2 >= 0 { ((8 * c as i128 * NS) << e2) } else { ((8 * c as i128 * NS) + (1i128 << (-e2)) - 1) >> (-e2) };
+            let mut ages = vec![-1_000_000_000, -1, 0, 1, thr_floor_ns - 1, thr_floor_ns, thr_floor_ns + 1, thr_exact_ns_ceil - 1, thr_exact_ns_ceil, thr_exact_ns_ceil + 1, thr_exact_ns_ceil + NS, 86_400 * NS * 365];
+            ages.retain(|x| *x >= -1_000_000_000);
+            for age in ages {
+                for state in 0..3 {
+                    work.push((leap, age, bits, state, "threshold"));
+                }
+            }
+        }
+    }
+    // (c) random.
+    let mut rng = Rng::new(a.seed ^ 0xC10);
+    for _ in 0..a.count {
+        let iv = bits_of_f64(rng.range(0, 4_000_000) as f64 / 1000.0);
+        let age = match rng.below(3) {
+            0 => rng.range(0, 40_000_000_000_000) as i128,
+            1 => {
+                let (c, e2) = decode_float(iv);
+                let t = if e2 >= 0 { (8 * c as i128 * NS) << e2 } else { (8 * c as i128 * NS) >> (-e2) };
+                t + rng.range(-3, 3) as i128
+            }
+            _ => rng.range(-5, 5) as i128,
+        };
+        work.push((*rng.pick(&[0u16, 1, 2, 3, 4, 9, 65535]), age, iv, rng.below(3) as usize, "random"));
+    }
+
+    let mut idx = 0usize;
+    let mut samples = Vec::new();
+    for (leap, age, iv, state, kind) in work.iter() {
+        idx += 1;
+        if (idx as u64) % a.nshards != a.shard {
+            continue;
+        }
+        // Bring the FSM to the wanted state, always with a measurement on record.
+        d.send(Message::ClockErrorBoundData((tracking_of(&good), 0, ts(4000, 0))));
+        let mut expect_n = 2;
+        match state {
+            0 => {
+                d.send(Message::ChronyNotResponding);
+                expect_n = 3;
+            }
+            2 => {
+                d.send(Message::ChronyNotRespondingGracePeriod);
+                expect_n = 3;
+            }
+            _ => {}
+        }
+        let r = Report { ref_id: 0, leap: *leap, ref_time_ns: now_ns - age, correction_bits: float_bits(1 << 10, 0), delay_bits: 0, dispersion_bits: 0, interval_bits: *iv };
+        d.send(Message::ClockErrorBoundData((tracking_of(&r), 0, ts(4001, 0))));
+        let mut ok = true;
+        for _ in 0..expect_n {
+            match d.wait_publication() {
+                Wait::Published => {}
+                Wait::NotPublished => {
+                    violation(&mut violations, a, "C10", "no-publication", format!("report leap {} age {} ns was consumed without a publication", leap, age), json!({}));
+                    ok = false;
+                    break;
+                }
+                Wait::Inconclusive => return json!({"inconclusive": "writer thread did not answer", "evaluations": evaluations, "violations": violations}),
+            }
+        }
+        if !ok {
+            break;
+        }
+        let rec = *d.log.lock().unwrap().last().unwrap();
+        let before = { let l = d.log.lock().unwrap(); l[l.len() - 2] };
+        evaluations += 1;
+        let state_ok = before.status == [0, 1, 2][*state];
+        if !state_ok {
+            // The FSM could not be brought to the wanted state: not this property's business, note it.
+            *cells.entry("state-setup-differs".to_string()).or_insert(0) += 1;
+        }
+        let (expected, class) = classify(*leap, *age, *iv);
+        *cells.entry(format!("{}|{}|from-{}", kind, class, state)).or_insert(0) += 1;
+        match expected {
+            None => slivers += 1,
+            Some(e) => {
+                if rec.status != e {
+                    violation(&mut violations, a, "C10", &format!("misclassified-{}", class), format!("leap status {}, reference time {} ns old, update interval {} s (8 intervals = {} s), FSM state before {}: published status {} expected {}", leap, age, wire::f64_of_bits(*iv), 8.0 * wire::f64_of_bits(*iv), state, rec.status, e),
+                              json!({"leap": leap, "age_ns": age.to_string(), "interval_bits": iv, "state": state}));
+                }
+            }
+        }
+        if samples.len() < 3 && *kind == "threshold" && *leap == 1 {
+            samples.push(json!({"leap": leap, "age_ns": age.to_string(), "interval_s": wire::f64_of_bits(*iv), "from_state": state, "published_status": rec.status, "expected": expected}));
+        }
+    }
+    d.stop();
+    let _ = std::fs::remove_dir_all(&dir);
+    json!({"evaluations": evaluations, "work_items": work.len(), "cells": cells, "slivers": slivers, "violations": violations, "samples": samples})
+}
+
+// ------------------------------------------------------------------------------------ C08 / C09
+
+#[derive(Debug, Clone, Copy, PartialEq)]
+enum Outcome {
+    /// Synchronised report: (|a| + b + c) / 1024 seconds with offset a/1024 (signed), dispersion b/1024, delay c/512; PHC bound.
+    Sync { a: i64, b: i64, c: i64, phc: i64 },
+    Unsync,
+    Stale,
+    BadLeap,
+    Future,
+    NoReplyGrace,
+    NoReply,
+    PhcFailGrace,
+    PhcFail,
+}
+
+impl Outcome {
+    fn name(&self) -> &'static str {
+        match self {
+            Outcome::Sync { .. } => "sync",
+            Outcome::Unsync => "unsync",
+            Outcome::Stale => "stale",
+            Outcome::BadLeap => "bad-leap",
+            Outcome::Future => "future",
+            Outcome::NoReplyGrace => "no-reply-grace",
+            Outcome::NoReply => "no-reply",
+            Outcome::PhcFailGrace => "phc-fail-grace",
+            Outcome::PhcFail => "phc-fail",
+        }
+    }
+
+    /// Status class of the outcome: 1 sync, 2 free running, 0 unknown.
+    fn class(&self) -> i32 {
+        match self {
+            Outcome::Sync { .. } => 1,
+            Outcome::Unsync | Outcome::Stale | Outcome::NoReplyGrace | Outcome::PhcFailGrace => 2,
+            Outcome::BadLeap | Outcome::Future | Outcome::NoReply | Outcome::PhcFail => 0,
+        }
+    }
+
+    fn message(&self, as_of: (i64, i64)) -> Message {
+        let now_ns = T0_REAL_S as i128 * NS;
+        let dy = |n: i64| float_bits(n, 25 - 10); // n / 1024
+        let rep = |leap: u16, age: i128, a: i64, b: i64, c: i64| Report { ref_id: 0, leap, ref_time_ns: now_ns - age, correction_bits: dy(a), delay_bits: float_bits(c, 25 - 9), dispersion_bits: dy(b), interval_bits: bits_of_f64(16.0) };
+        match self {
+            Outcome::Sync { a, b, c, phc } => Message::ClockErrorBoundData((tracking_of(&rep(0, 2 * NS, *a, *b, *c)), *phc, ts(as_of.0, as_of.1))),
+            Outcome::Unsync => Message::ClockErrorBoundData((tracking_of(&rep(3, 0, 1024, 1024, 512)), 0, ts(as_of.0, as_of.1))),
+            Outcome::Stale => Message::ClockErrorBoundData((tracking_of(&rep(1, 1000 * NS, 7, 9, 11)), 0, ts(as_of.0, as_of.1))),
+            Outcome::BadLeap => Message::ClockErrorBoundData((tracking_of(&rep(9, 0, 7, 9, 11)), 0, ts(as_of.0, as_of.1))),
+            Outcome::Future => Message::ClockErrorBoundData((tracking_of(&rep(0, -5 * NS, 7, 9, 11)), 0, ts(as_of.0, as_of.1))),
+            Outcome::NoReplyGrace => Message::ChronyNotRespondingGracePeriod,
+            Outcome::NoReply => Message::ChronyNotResponding,
+            Outcome::PhcFailGrace => Message::PhcErrorBoundRetrievalFailedGracePeriod,
+            Outcome::PhcFail => Message::PhcErrorBoundRetrievalFailed,
+        }
+    }
+}
+
+fn expected_bound(a: i64, b: i64, c: i64, phc: i64) -> i64 {
+    // (|a| + b + c) / 1024 s in ns, rounded up; exact in integers.
+    let num = (a.abs() + b + c) as i128 * NS;
+    ((num + 1023) / 1024) as i64 + phc
+}
+
+fn random_outcome(rng: &mut Rng, allow_sync: bool) -> Outcome {
+    let n = if allow_sync { 12 } else { 8 };
+    match rng.below(n) {
+        0 => Outcome::Unsync,
+        1 => Outcome::Stale,
+        2 => Outcome::BadLeap,
+        3 => Outcome::Future,
+        4 => Outcome::NoReplyGrace,
+        5 => Outcome::NoReply,
+        6 => Outcome::PhcFailGrace,
+        7 => Outcome::PhcFail,
+        _ => Outcome::Sync { a: rng.range(-2_000_000, 2_000_000), b: rng.range(0, 2_000_000), c: rng.range(0, 2_000_000), phc: *rng.pick(&[0i64, 0, 0, 5, 30_000]) },
+    }
+}
+
+const NONSYNC: [Outcome; 8] = [Outcome::Unsync, Outcome::Stale, Outcome::BadLeap, Outcome::Future, Outcome::NoReplyGrace, Outcome::NoReply, Outcome::PhcFailGrace, Outcome::PhcFail];
+
+/// Run one sequence on a fresh daemon incarnation (optionally over a segment left by a previous
+/// incarnation) and check it against the reference model. `prop` selects which oracle reports.
+fn run_sequence(a: &Args, prop: &str, seq: &[Outcome], drift: u32, previous: bool, dir: &std::path::Path, violations: &mut Vec<Value>, stats: &mut BTreeMap<String, u64>, uptimes_ns: &[i128]) -> Result<(), String> {
+    let path = dir.join("shm");
+    let _ = std::fs::remove_file(&path);
+    clock::fixed::set((T0_REAL_S, 0), (50, 0));
+    if previous {
+        // A previous incarnation left a Synchronized record behind.
+        let mut d0 = Daemon::start(&path, drift, true);
+        d0.send(Outcome::Sync { a: 100, b: 100, c: 100, phc: 0 }.message((20, 7)));
+        if !matches!(d0.wait_publication(), Wait::Published) {
+            return Err("previous incarnation did not publish".into());
+        }
+        d0.stop();
+    }
+    let mut d = Daemon::start(&path, drift, true);
+    let c = std::ffi::CString::new(path.to_str().unwrap()).unwrap();
+    let mut persistent: Option<clock_bound_shm::ShmReader> = if previous { clock_bound_shm::ShmReader::new(&c).ok() } else { None };
+    // Reference model.
+    let mut have_sync = false;
+    let (mut m_bound, mut m_as_of): (i64, (i64, i64)) = (0, (0, 0));
+    let desc = || format!("[{}{}]", if previous { "restart; " } else { "" }, seq.iter().map(|o| o.name()).collect::<Vec<_>>().join(" "));
+    for (i, o) in seq.iter().enumerate() {
+        let as_of = (100 + i as i64, 1 + i as i64 * 1000);
+        let gen_before = generation_of(&path).unwrap_or(0);
+        let n_before = d.log.lock().unwrap().len();
+        d.send(o.message(as_of));
+        match d.wait_publication() {
+            Wait::Published => {}
+            Wait::NotPublished => {
+                if prop == "C08" {
+                    violation(violations, a, "C08", "no-publication", format!("outcome #{} ({}) of {} did not result in a publication", i, o.name(), desc()), json!({"sequence": seq.iter().map(|o| format!("{:?}", o)).collect::<Vec<_>>(), "restart": previous}));
+                }
+                return Ok(());
+            }
+            Wait::Inconclusive => return Err("writer thread did not answer".into()),
+        }
+        *stats.entry(format!("outcome-{}", o.name())).or_insert(0) += 1;
+        let extra = d.drain_notifications();
+        let log_len = d.log.lock().unwrap().len();
+        let rec = *d.log.lock().unwrap().last().unwrap();
+        let gen_after = generation_of(&path).unwrap_or(0);
+        if let Outcome::Sync { a: oa, b, c, phc } = o {
+            have_sync = true;
+            m_bound = expected_bound(*oa, *b, *c, *phc);
+            m_as_of = as_of;
+        }
+        let case = || json!({"sequence": seq.iter().map(|o| format!("{:?}", o)).collect::<Vec<_>>(), "restart": previous, "step": i, "published": format!("{:?}", rec)});
+        if prop == "C08" {
+            if extra != 0 || log_len != n_before + 1 {
+                violation(violations, a, "C08", "publication-count", format!("outcome #{} ({}) of {} resulted in {} publications", i, o.name(), desc(), log_len - n_before), case());
+            }
+            let adv = gen_after.wrapping_sub(gen_before);
+            if !(adv == 2 || (gen_before == 0 && gen_after == 2) || (gen_before >= 65534 && gen_after == 2)) {
+                violation(violations, a, "C08", "generation-advance", format!("outcome #{} ({}) of {}: generation {} -> {}", i, o.name(), desc(), gen_before, gen_after), case());
+            }
+            if rec.drift != drift {
+                violation(violations, a, "C08", "drift-field", format!("outcome #{} of {}: published max drift {} ppb, configured {}", i, desc(), rec.drift, drift), case());
+            }
+            if rec.void_after != (rec.as_of.0 + 1000, 0) {
+                violation(violations, a, "C08", "void-after", format!("outcome #{} of {}: as_of {:?} void_after {:?} (expected whole second as_of.sec + 1000)", i, desc(), rec.as_of, rec.void_after), case());
+            }
+            if have_sync {
+                if rec.bound != m_bound || rec.as_of != m_as_of {
+                    let sig = if matches!(o, Outcome::Sync { .. }) { "sync-not-recorded" } else { "measurement-not-frozen" };
+                    violation(violations, a, "C08", sig, format!("after outcome #{} ({}) of {}: published (bound {}, as_of {:?}), most recent synchronised report gives (bound {}, as_of {:?})", i, o.name(), desc(), rec.bound, rec.as_of, m_bound, m_as_of), case());
+                }
+                if rec.status != o.class() {
+                    violation(violations, a, "C08", "status-after-outcome", format!("after outcome #{} ({}) of {}: published status {} expected {}", i, o.name(), desc(), rec.status, o.class()), case());
+                }
+            }
+            // Read back through the segment: a fresh reader and one that stays attached.
+            match read_fresh(&path) {
+                Ok(f) if f == rec => {}
+                other => violation(violations, a, "C08", "readback-fresh", format!("after outcome #{} of {}: a fresh reader got {:?}, the sink was given {:?}", i, desc(), other, rec), case()),
+            }
+            if persistent.is_none() {
+                persistent = clock_bound_shm::ShmReader::new(&c).ok();
+            }
+            if let Some(r) = persistent.as_mut() {
+                match r.snapshot() {
+                    Ok(s) if rig::raw_of(s) == rec => {}
+                    other => violation(violations, a, "C08", "readback-attached", format!("after outcome #{} of {}: the attached reader got {:?}, the sink was given {:?}", i, desc(), other.map(rig::raw_of), rec), case()),
+                }
+            }
+        }
+        if prop == "C09" && !have_sync {
+            *stats.entry("records-before-first-sync".to_string()).or_insert(0) += 1;
+            if rec.status != 0 {
+                violation(violations, a, "C09", "freerunning-before-first-sync", format!("outcome #{} ({}) of {} published status {} with bound {} as_of {:?} before any synchronised report of this incarnation", i, o.name(), desc(), rec.status, rec.bound, rec.as_of), case());
+            }
+            // What clients make of it at various machine uptimes.
+            for up in uptimes_ns.iter() {
+                clock::fixed::set((T0_REAL_S, 0), ((*up / NS) as i64, (*up % NS) as i64));
+                let st = clock::with_virtual(|| clock_bound_client::ClockBoundClient::new_with_path(path.to_str().unwrap()).and_then(|mut c| c.now()));
+                clock::fixed::set((T0_REAL_S, 0), (50, 0));
+                *stats.entry("client-evaluations".to_string()).or_insert(0) += 1;
+                match st {
+                    Ok(r) => {
+                        let s = match r.clock_status { clock_bound_client::ClockStatus::Unknown => 0, clock_bound_client::ClockStatus::Synchronized => 1, clock_bound_client::ClockStatus::FreeRunning => 2 };
+                        if s != 0 {
+                            violation(violations, a, "C09", "client-trusts-before-first-sync", format!("after outcome #{} ({}) of {}, a client at uptime {} ns reports status {} (earliest {:?} latest {:?})", i, o.name(), desc(), up, s, r.earliest, r.latest), case());
+                        }
+                    }
+                    Err(e) => {
+                        *stats.entry(format!("client-error-{:?}", e.kind)).or_insert(0) += 1;
+                    }
+                }
+            }
+        }
+    }
+    d.stop();
+    Ok(())
+}
+
+fn mode_c08_c09(a: &Args, prop: &str) -> Value {
+    let dir = workdir(&prop.to_lowercase());
+    let mut violations = Vec::new();
+    let mut stats: BTreeMap<String, u64> = BTreeMap::new();
+    let mut evaluations = 0u64;
+    let mut distinct = std::collections::HashSet::new();
+    let mut samples = Vec::new();
+    let mut job = 0u64;
+    let uptimes: Vec<i128> = vec![1 * NS, 4_900_000_000, 5 * NS, 60 * NS, 999 * NS, 1000 * NS + 1, 1_000_000 * NS];
+    let mut run = |seq: Vec<Outcome>, drift: u32, previous: bool, violations: &mut Vec<Value>, stats: &mut BTreeMap<String, u64>| -> Option<String> {
+        job += 1;
+        if job % a.nshards != a.shard {
+            return None;
+        }
+        evaluations += 1;
+        distinct.insert(format!("{:?}{}{}", seq, drift, previous));
+        if samples.len() < 3 && seq.len() >= 3 {
+            samples.push(json!({"sequence": seq.iter().map(|o| format!("{:?}", o)).collect::<Vec<_>>(), "restart_over_previous_segment": previous, "max_drift_ppb": drift}));
+        }
+        run_sequence(a, prop, &seq, drift, previous, &dir, violations, stats, &uptimes).err()
+    };
+    let sync = Outcome::Sync { a: -1500, b: 300, c: 700, phc: 0 };
+    let mut all9: Vec<Outcome> = NONSYNC.to_vec();
+    all9.push(sync);
+    let mut inconclusive: Option<String> = None;
+    if prop == "C08" {
+        // Enumerated: every sequence of length <= 3 over the 9 outcome kinds (length 4 in thorough via --deep).
+        let maxlen = arg_u64(&a.map, "enumlen", 3) as usize;
+        let mut stack: Vec<Vec<Outcome>> = vec![vec![]];
+        while let Some(seq) = stack.pop() {
+            if !seq.is_empty() {
+                if let Some(e) = run(seq.clone(), 1000, false, &mut violations, &mut stats) {
+                    inconclusive = Some(e);
+                }
+            }
+            if seq.len() < maxlen {
+                for o in all9.iter() {
+                    let mut s = seq.clone();
+                    s.push(*o);
+                    stack.push(s);
+                }
+            }
+        }
+        // Random long sequences, random bounds, random drift, with and without a previous incarnation.
+        let mut rng = Rng::new(a.seed ^ 0xC08);
+        for _ in 0..a.count {
+            let len = 1 + rng.below(60) as usize;
+            let seq: Vec<Outcome> = (0..len).map(|_| random_outcome(&mut rng, true)).collect();
+            let drift = *rng.pick(&[1000u32, 50_000, 500_000, 1, 999_999_999]);
+            if let Some(e) = run(seq, drift, rng.chance(1, 4), &mut violations, &mut stats) {
+                inconclusive = Some(e);
+            }
+        }
+    } else {
+        // C09: every non-synchronised prefix of length <= 4 (5 with --enumlen 5), fresh and restarted.
+        let maxlen = arg_u64(&a.map, "enumlen", 3) as usize;
+        let mut stack: Vec<Vec<Outcome>> = vec![vec![]];
+        while let Some(seq) = stack.pop() {
+            if !seq.is_empty() {
+                for previous in [false, true] {
+                    if let Some(e) = run(seq.clone(), 1000, previous, &mut violations, &mut stats) {
+                        inconclusive = Some(e);
+                    }
+                }
+            }
+            if seq.len() < maxlen {
+                for o in NONSYNC.iter() {
+                    let mut s = seq.clone();
+                    s.push(*o);
+                    stack.push(s);
+                }
+            }
+        }
+        let mut rng = Rng::new(a.seed ^ 0xC09);
+        for _ in 0..a.count {
+            let len = 1 + rng.below(30) as usize;
+            let mut seq: Vec<Outcome> = (0..len).map(|_| random_outcome(&mut rng, false)).collect();
+            // then a synchronised report and more, to see that the pipeline does recover
+            seq.push(sync);
+            seq.push(random_outcome(&mut rng, true));
+            let drift = *rng.pick(&[1000u32, 50_000, 500_000]);
+            if let Some(e) = run(seq, drift, rng.chance(1, 2), &mut violations, &mut stats) {
+                inconclusive = Some(e);
+            }
+        }
+    }
+    let _ = std::fs::remove_dir_all(&dir);
+    let mut v = json!({"evaluations": evaluations, "distinct": distinct.len(), "stats": stats, "violations": violations, "samples": samples});
+    if let Some(e) = inconclusive {
+        v["inconclusive"] = json!(e);
+    }
+    v
+}
+
+fn main() {
+    let map = parse_args();
+    let mode = map.get("_").cloned().unwrap_or_default();
+    let shard_s = arg_str(&map, "shard", "0/1");
+    let (shard, nshards): (u64, u64) = {
+        let mut it = shard_s.split('/');
+        (it.next().unwrap().parse().unwrap(), it.next().unwrap().parse().unwrap())
+    };
+    let a = Args { seed: arg_u64(&map, "seed", 1), count: arg_u64(&map, "count", 1000), shard, nshards, replay_dir: arg_str(&map, "replays", "/verif/replays"), dump: arg_str(&map, "dump", "/dev/null"), map: map.clone() };
+    let t0 = clock::real_clock_ns(libc::CLOCK_MONOTONIC);
+    wire::self_check();
+    clock::per_thread_mode(true);
+    let mut v = match mode.as_str() {
+        "c07" => {
+            clock::fixed::install();
+            mode_c07(&a)
+        }
+        "c10" => {
+            clock::fixed::install();
+            mode_c10(&a)
+        }
+        "c08" => {
+            clock::fixed::install();
+            mode_c08_c09(&a, "C08")
+        }
+        "c09" => {
+            clock::fixed::install();
+            mode_c08_c09(&a, "C09")
+        }
+        "c12" | "c13" | "c01" => world::run(&mode, &a),
+        m => panic!("unknown mode {:?}", m),
+    };
+    v["wall_s"] = json!((clock::real_clock_ns(libc::CLOCK_MONOTONIC) - t0) as f64 / 1e9);
+    v["virtual_clock_reads"] = json!(clock::virtual_reads());
+    let out = arg_str(&map, "out", "");
+    if out.is_empty() {
+        println!("{}", vworld::serde_json::to_string_pretty(&v).unwrap());
+    } else {
+        vworld::write_json(&out, &v);
+    }
+}
